@@ -805,14 +805,19 @@ func (c *Client) Start() (addr net.Addr, err error) {
 	go func() {
 		defer c.clientWaitGroup.Done()
 		defer c.pipesWaitGroup.Done()
-		defer close(linesCh)
 
-		scanner := bufio.NewScanner(runner.Stdout())
+		stdout := runner.Stdout()
+		scanner := bufio.NewScanner(stdout)
 		for scanner.Scan() {
 			linesCh <- scanner.Text()
 		}
+		close(linesCh)
 		if scanner.Err() != nil {
 			c.logger.Error("error encountered while scanning stdout", "error", scanner.Err())
+
+			// The scanner gives up on e.g. an over-long line. Keep consuming
+			// stdout anyway so the plugin never blocks writing to a full pipe.
+			_, _ = io.Copy(io.Discard, stdout)
 		}
 	}()
 
